@@ -21,13 +21,16 @@ def members_snapshot(U, members):
 
 
 def h(cfg):
-    shape = gen_shape(cfg['N'], 1)
+    # W1 is the source; tasks of W2 and detached tasks are the "outside" tasks (another project / free-standing)
+    shape = gen_shape(cfg['N'], cfg.get('nW', 1))
     U = build(shape)
     W = U.wbss[0]
     W.release = 'r1'
     W.owner_attr = U.keys[0]
     for i, t in enumerate(U.tasks):
         t.custom = ('c', i)
+        if i % 2 == 0:
+            t.reviewer = None  # a custom attribute whose value is None is still an attribute
     S = snapshot(U)
     members = reach_from_roots(S, 0)
     outside = [i for i in range(U.N) if i not in members]
@@ -82,6 +85,8 @@ def h(cfg):
         items.append((c.id == t.id, 'C10 copied task has another id', None))
         check(c.name == t.name and c.__dict__.get('custom') is t.__dict__.get('custom') and c.__dict__.get('key') is t.__dict__.get('key'),
               'C10 copied task lost a field or custom attribute')
+        check(sorted(k for k in c.__dict__ if not k.startswith('_')) == sorted(k for k in t.__dict__ if not k.startswith('_')),
+              'C10 copied task has another set of attributes', detail=str(sorted(set(t.__dict__) ^ set(c.__dict__))))
         check(c.wbs is C, 'C10 copied task does not report the new WBS as owner')
         # hierarchy
         pm = S['par'][m]
@@ -119,7 +124,7 @@ def h(cfg):
         op = pick_op(U, MUTATIONS, 1)
         watch = lambda: copy_snapshot(C, cmap, cix, uix)
     else:
-        if len(selected) != len(members):
+        if len(selected) != len(members) or U.nW != 1:
             return
         op = pick_op(U2, MUTATIONS, 1)
         watch = lambda: members_snapshot(U, members)
@@ -147,5 +152,6 @@ def copy_snapshot(C, cmap, cix, uix):
 
 def harnesses(tier):
     if tier == 'quick':
-        return [{'name': 'copy-N3', 'fn': h, 'cfg': {'N': 3}}]
+        return [{'name': 'copy-N3', 'fn': h, 'cfg': {'N': 3}},
+                {'name': 'copy-N3-other-wbs', 'fn': h, 'cfg': {'N': 3, 'nW': 2, 'mutate': False}}]
     return [{'name': 'copy-N4-structure', 'fn': h, 'cfg': {'N': 4, 'mutate': False}}, {'name': 'copy-N3', 'fn': h, 'cfg': {'N': 3}}]
